@@ -123,16 +123,16 @@ class GenericQuantity(object):
     def __eq__(self, other):
         (self_value, self_units) = self._unpack_qty(self)
         (other_value, other_units) = self._unpack_qty(other)
-        if not is_zero(other) and (not other_units or
-                                   not self.has_units(other_units)):
+        if (other_units or not is_zero(other_value)) and (
+                not other_units or not self.has_units(other_units)):
             return False
         return self_value == other_value
 
     def __ne__(self, other):
         (self_value, self_units) = self._unpack_qty(self)
         (other_value, other_units) = self._unpack_qty(other)
-        if not is_zero(other) and (not other_units or
-                                   not self.has_units(other_units)):
+        if (other_units or not is_zero(other_value)) and (
+                not other_units or not self.has_units(other_units)):
             return True
         return self_value != other_value
 
@@ -149,7 +149,7 @@ class GenericQuantity(object):
     def __lt__(self, other):
         (self_value, self_units) = self._unpack_qty(self)
         (other_value, other_units) = self._unpack_qty(other)
-        if (not is_zero(other_value) and
+        if ((other_units or not is_zero(other_value)) and
                 (not other_units or not self.has_units(other_units))):
             raise UnitsError(
                 'Incompatible units %s vs %s in comparison'
@@ -159,7 +159,7 @@ class GenericQuantity(object):
     def __gt__(self, other):
         (self_value, self_units) = self._unpack_qty(self)
         (other_value, other_units) = self._unpack_qty(other)
-        if (not is_zero(other_value) and
+        if ((other_units or not is_zero(other_value)) and
                 (not other_units or not self.has_units(other_units))):
             raise UnitsError(
                 'Incompatible units %s vs %s in comparison'
@@ -169,7 +169,7 @@ class GenericQuantity(object):
     def __ge__(self, other):
         (self_value, self_units) = self._unpack_qty(self)
         (other_value, other_units) = self._unpack_qty(other)
-        if (not is_zero(other_value) and
+        if ((other_units or not is_zero(other_value)) and
                 (not other_units or not self.has_units(other_units))):
             raise UnitsError(
                 'Incompatible units %s vs %s in comparison'
@@ -179,7 +179,7 @@ class GenericQuantity(object):
     def __le__(self, other):
         (self_value, self_units) = self._unpack_qty(self)
         (other_value, other_units) = self._unpack_qty(other)
-        if (not is_zero(other_value) and
+        if ((other_units or not is_zero(other_value)) and
                 (not other_units or not self.has_units(other_units))):
             raise UnitsError(
                 'Incompatible units %s vs %s in comparison'
@@ -189,7 +189,7 @@ class GenericQuantity(object):
     def __add__(self, other):
         (self_value, self_units) = self._unpack_qty(self)
         (other_value, other_units) = self._unpack_qty(other)
-        if (not is_zero(other_value) and
+        if ((other_units or not is_zero(other_value)) and
                 (not other_units or not self.has_units(other_units))):
             raise UnitsError(
                 'Incompatible units %s vs %s in addition'
@@ -199,7 +199,7 @@ class GenericQuantity(object):
     def __radd__(self, other):
         (self_value, self_units) = self._unpack_qty(self)
         (other_value, other_units) = self._unpack_qty(other)
-        if (not is_zero(other_value) and
+        if ((other_units or not is_zero(other_value)) and
                 (not other_units or not self.has_units(other_units))):
             raise UnitsError(
                 'Incompatible units %s vs %s in addition'
@@ -209,7 +209,7 @@ class GenericQuantity(object):
     def __sub__(self, other):
         (self_value, self_units) = self._unpack_qty(self)
         (other_value, other_units) = self._unpack_qty(other)
-        if (not is_zero(other_value) and
+        if ((other_units or not is_zero(other_value)) and
                 (not other_units or not self.has_units(other_units))):
             raise UnitsError(
                 'Incompatible units %s vs %s in subtraction'
@@ -219,7 +219,7 @@ class GenericQuantity(object):
     def __rsub__(self, other):
         (self_value, self_units) = self._unpack_qty(self)
         (other_value, other_units) = self._unpack_qty(other)
-        if (not is_zero(other_value) and
+        if ((other_units or not is_zero(other_value)) and
                 (not other_units or not self.has_units(other_units))):
             raise UnitsError(
                 'Incompatible units %s vs %s in subtraction'
